@@ -57,6 +57,7 @@ type Exception struct {
 
 // C is the per-run checker context.
 type C struct {
+	callSiteMemo map[*ssa.Function][]ssa.CallInstruction
 	P               *Program
 	Prop            string
 	Tier            string
